@@ -439,12 +439,17 @@ def check_fault(ctx, case):
             nreq = srv.count
             log = list(srv.requests)
 
-            def inject(k, kind):
+            def inject(k, kind, then=None):
                 is_range = log[k][2] is not None
                 if kind in RANGE_ONLY and not is_range:
                     return None
                 srv.reset_count()
-                srv.set_faults([httpd.Fault(k, kind)])
+                faults = [httpd.Fault(k, kind)]
+                if then is not None:
+                    # a second fault on the request that follows (the retry
+                    # of a client that retries)
+                    faults.append(httpd.Fault(k + 1, then))
+                srv.set_faults(faults)
                 try:
                     got = operation()
                 except Exception as exc:     # noqa
@@ -462,7 +467,8 @@ def check_fault(ctx, case):
                     ctx.fail("fault %s on request %d of %d (%s %s, Range %s) "
                              "made fetch_chunk return %d bytes that differ "
                              "from the %d bytes stored (%s dataset, bits %s)"
-                             % (kind, k, nreq, log[k][0], log[k][1],
+                             % (kind if then is None else kind + " then "
+                                + then, k, nreq, log[k][0], log[k][1],
                                 log[k][2], len(got), len(truth[pos]),
                                 case["kind"], case["bits"]))
                 return "correct"
@@ -477,6 +483,14 @@ def check_fault(ctx, case):
                         if out is not None:
                             stats[out] += 1
                             stats["fault." + kind] += 1
+                    # two faults in a row: a dropped connection, then an
+                    # error reply to whatever request comes next
+                    for kind in ("close_before", "close_after_headers"):
+                        for then in ("404", "500", "503", "403"):
+                            out = inject(k, kind, then)
+                            if out is not None:
+                                stats[out] += 1
+                                stats["fault.%s+%s" % (kind, then)] += 1
                 return nreq, stats
             k = case["fault_k"] % nreq
             kind = case["fault_kind"]
@@ -536,6 +550,6 @@ SUBS = [
         min_per_shard=8),
     Sub("faults", run_fault, replay, quick=400, thorough=10000,
         min_per_shard=10),
-    Sub("faults_all", run_fault_all, replay, quick=40, thorough=800,
+    Sub("faults_all", run_fault_all, replay, quick=24, thorough=500,
         min_per_shard=5),
 ]
